@@ -157,6 +157,10 @@ def step (_ : Unit) (ws : List String) : Unit × String × String × String :=
     match v with
     | some v => let (m, s, t) := valLine v; ((), m, s, t)
     | none => ((), "bad-op", "-", "")
+  | ["het", _, _] =>
+    -- every row is converted on its own (`Generated.capiReifiesPerRow`): what one row holds cannot change how another
+    -- row's values come out, so the C rows equal the Rust rows whatever the mix of plain and graph values
+    ((), "eq", "eq", "")
   | ["errc", code] =>
     match errTable.lookup code with
     | some (cat, phase) =>
